@@ -28,12 +28,12 @@ type replayCase struct {
 }
 
 type replayOutcome struct {
-	Fails   []string
-	Panic   string
-	Assume  bool
-	Covers  []string
-	Done    bool
-	Raw     string
+	Fails  []string
+	Panic  string
+	Assume bool
+	Covers []string
+	Done   bool
+	Raw    string
 }
 
 func pkgDir(pkg string) string {
